@@ -107,6 +107,24 @@ def to_tla(e: Any, names: set[str]) -> str:
     raise Unsupported11(type(e).__name__)
 
 
+def to_tla_bool(e: Any, names: set[str]) -> str:
+    """A guard as TLA+ text; raises Unsupported11 unless it is a boolean
+    combination of integer comparisons (a bare variable or a subscript as
+    condition is DATA: `where(flag, ...)`)."""
+    import pymbolic.primitives as p
+    if isinstance(e, (bool, np.bool_)):
+        return "TRUE" if e else "FALSE"
+    if isinstance(e, p.Comparison):
+        return to_tla(e, names)
+    if isinstance(e, p.LogicalAnd):
+        return "(" + " /\\ ".join(to_tla_bool(c, names) for c in e.children) + ")"
+    if isinstance(e, p.LogicalOr):
+        return "(" + " \\/ ".join(to_tla_bool(c, names) for c in e.children) + ")"
+    if isinstance(e, p.LogicalNot):
+        return f"(~{to_tla_bool(e.child, names)})"
+    raise Unsupported11("data-dependent guard")
+
+
 def divisors_of(e: Any) -> list[Any]:
     """non-constant divisors of floor-div / modulo inside e (must be > 0)"""
     import pymbolic.primitives as p
@@ -223,7 +241,18 @@ def access_model(t_unit: Any, kid: str) -> dict:
                 it = to_tla(ie2, names)
                 et = to_tla(ext, names) if not isinstance(ext, (int, np.integer)) \
                     else f"({int(ext)})"
-                gts = [to_tla(subst_scalars(g), names) for g in guards]
+                # a guard that depends on DATA is dropped (the obligation gets
+                # stronger; should it then fail, it is reported as inconclusive,
+                # never as a violation)
+                gts = []
+                dropped = 0
+                for g in guards:
+                    gn: set[str] = set()
+                    try:
+                        gts.append(to_tla_bool(subst_scalars(g), gn))
+                        names |= gn
+                    except Unsupported11:
+                        dropped += 1
                 divs = [to_tla(subst_scalars(d), names) for d in divisors_of(ie2)]
                 dts = [[to_tla(subst_scalars(c), names) for c in conj] for conj in doms]
             except Unsupported11 as ex:
@@ -242,6 +271,7 @@ def access_model(t_unit: Any, kid: str) -> dict:
                 "id": f"{kid}|{insn_id}|{role}:{arr}[{ax}]",
                 "vars": sorted(names), "params": [q for q in params if q in names],
                 "domain": dts, "guards": gts, "divisors": divs,
+                "dropped_guards": dropped,
                 "ranges": {v: lo_hi[v] for v in names if v in lo_hi
                            and None not in lo_hi[v]},
                 "index": it, "extent": et, "text": f"{arr}[... {ie} ...] axis {ax} "
